@@ -248,23 +248,43 @@ theorem C08_intops_mod (q : Quirks) (a b : W) :
       have hu' : ¬ (a = intMin ∧ b = 18446744073709551615#64) := hu
       simp [intBody, intBin, mMod, h, hu', srem_spec]⟩
 
-/-- shifts: counts 0..63 as documented (`<<`; `>>` when the body shifts logically); a count outside
-0..63 is C undefined behaviour (finding `shift-count-out-of-range`) -/
+/-- shifts, every count (since the repairs ff7b847 / 8d61d7d): `<<` and `>>` are the total shift of the specification -
+counts 0..63 as documented, 64 and more shift everything out, a negative count shifts the other way; `>>` is the
+logical shift when the body does not propagate the sign (`shrArith = false`, probed on the real binary every run) -/
 theorem C08_intops_shift (q : Quirks) (a n : W) :
-    (n.toNat < 64 → intBody q ['<', '<'] a n = intBin .shl a n) ∧
-    (n.toNat < 64 → q.shrArith = false → intBody q ['>', '>'] a n = intBin .shr a n) ∧
-    (64 ≤ n.toNat → intBody q ['<', '<'] a n = .error .ub ∧ intBody q ['>', '>'] a n = .error .ub) := by
-  refine ⟨fun h => by simp [intBody, intBin, mShl, shlSpec, h],
-    fun h hq => by simp [intBody, intBin, mShr, shrSpec, h, hq],
-    fun h => by
-      have : ¬ n.toNat < 64 := by omega
-      simp [intBody, mShl, mShr, this]⟩
+    intBody q ['<', '<'] a n = intBin .shl a n ∧
+    (q.shrArith = false → intBody q ['>', '>'] a n = intBin .shr a n) := by
+  have key : ∀ left : Bool, shiftOp a n left = shiftSpec a (if left then n.toInt else -n.toInt) := by
+    intro left
+    unfold shiftOp shiftSpec
+    generalize n.toInt = c
+    cases left <;> dsimp only <;> simp only [Bool.not_true, Bool.not_false, Bool.false_eq_true, if_true, if_false] <;>
+      (repeat' split) <;>
+      first
+        | omega
+        | (with_reducible rfl)
+        | (exfalso; simp at *; done)
+        | (simp only [Int.neg_neg]; done)
+        | (have hc : c = 0 := by omega
+           subst hc; simp; done)
+  refine ⟨by simp [intBody, intBin, mShl, shlSpec, key], fun hq => by simp [intBody, intBin, mShr, shrSpec, key, hq]⟩
 
-/-- on the pinned tree `>>` propagates the sign: the documented logical shift is delivered exactly for
-left operands without the sign bit -/
+/-- before the repair 8d61d7d `>>` propagated the sign (`Quirks.pinned`): the documented logical shift was delivered exactly
+for left operands without the sign bit -/
 theorem C08_intops_shr_pinned (a n : W) (hn : n.toNat < 64) (ha : a.msb = false) :
     intBody Quirks.pinned ['>', '>'] a n = intBin .shr a n := by
-  simp [intBody, intBin, mShr, shrSpec, hn, Quirks.pinned, BitVec.sshiftRight_eq_of_msb_false ha]
+  have hi : n.toInt = (n.toNat : Int) := by
+    rw [BitVec.toInt_eq_toNat_cond]; have := n.isLt; split <;> omega
+  have hs : shiftSpec a (-n.toInt) = a >>> n.toNat := by
+    unfold shiftSpec
+    rw [hi]
+    (repeat' split) <;>
+      first
+        | omega
+        | (simp only [Int.neg_neg, Int.toNat_natCast]; done)
+        | (have hc : n.toNat = 0 := by omega
+           rw [hc]; simp; done)
+  simp [intBody, intBin, mShr, shrSpec, hn, Quirks.pinned, BitVec.sshiftRight_eq_of_msb_false ha, hs]
 
 /-- `^` on integers: square-and-multiply is the power for every base and every exponent ≥ 0;
 a negative exponent gives 0 (the manual does not define it) -/
